@@ -175,7 +175,15 @@ func (g *Gen) Type(depth int) ast.Type {
 		n := g.Width
 		var br ast.Types
 		for i := 0; i < n; i++ {
-			br = append(br, g.Type(depth-1))
+			b := g.Type(depth - 1)
+			for _, prev := range br {
+				// a union listing the same branch twice (or the same object twice) is outside the grammar
+				v.Assume(!v.DeepEqual(prev, b))
+				if prev.Kind == ast.KindRef && b.Kind == ast.KindRef {
+					v.Assume(v.Or(prev.Ref.ReferredPkg != b.Ref.ReferredPkg, prev.Ref.ReferredType != b.Ref.ReferredType))
+				}
+			}
+			br = append(br, b)
 		}
 		return g.decorate(ast.NewDisjunction(br))
 	case KIntersection:
@@ -339,4 +347,36 @@ func AllResolve(schemas ast.Schemas) bool {
 		ok = v.And(ok, v.Or(!Loaded(schemas, r.Pkg), Exists(schemas, r.Pkg, r.Name)))
 	}
 	return ok
+}
+
+// HasNestedUnion reports whether a union occurs beneath a branch of another union.
+func HasNestedUnion(t ast.Type, underUnion bool) bool {
+	switch t.Kind {
+	case ast.KindDisjunction:
+		if underUnion {
+			return true
+		}
+		for _, b := range t.Disjunction.Branches {
+			if HasNestedUnion(b, true) {
+				return true
+			}
+		}
+	case ast.KindArray:
+		return HasNestedUnion(t.Array.ValueType, underUnion)
+	case ast.KindMap:
+		return HasNestedUnion(t.Map.ValueType, underUnion)
+	case ast.KindStruct:
+		for _, f := range t.Struct.Fields {
+			if HasNestedUnion(f.Type, underUnion) {
+				return true
+			}
+		}
+	case ast.KindIntersection:
+		for _, b := range t.Intersection.Branches {
+			if HasNestedUnion(b, underUnion) {
+				return true
+			}
+		}
+	}
+	return false
 }
